@@ -41,6 +41,7 @@ def plan(tier, seed):
     shards.append(("linear", tier))
     shards.append(("orders",))
     shards.append(("filters", tier))
+    shards.append(("outer", tier))
     shards.append(("grainsino", tier))
     for c in range(4):
         shards.append(("grainsino_build", c, 4, tier))
@@ -251,6 +252,51 @@ def _run_recon(desc):
                         if y0 != 0 or ny % 2 == 0 or (px, py) != (0.0, 0.0):
                             sh.nontrivial += 1
                         sh.outcomes.add((ny, y0s, rng_name, extra))
+    sh.sample(case, limit=1)
+    return sh
+
+
+def _run_outer(desc):
+    """grains in the outer part of the scanned disc (0.9 and 0.97 of its radius, i.e. beyond the circle that stays in the beam for the
+    whole turn when the axis is off-centre): only the projections that were measured enter the sinogram; with the module's own shift
+    and pad the reconstruction frame must contain the predicted position and the grain must be there (1.5 px)"""
+    _, tier = desc
+    from ImageD11.sinograms import geometry as G, roi_iradon as R
+    sh = Shard()
+    for ystep in ((1.0,) if tier == "quick" else (1.0, 0.5)):
+        for ny in (40, 41):
+            ymin = -(ny // 2) * ystep
+            for y0s in (2.5, -2.5, 3.3, -3.3):
+                y0 = y0s * ystep
+                shift, pad = G.sino_shift_and_pad(y0, ny, ymin, ystep)
+                for frac in (0.9, 0.97):
+                    for ang in (10.0, 100.0, 200.0, 290.0, 45.0, 225.0):
+                        r_ = frac * (ny / 2) * ystep
+                        sx, sy = r_ * np.cos(np.radians(ang)), r_ * np.sin(np.radians(ang))
+                        for rng_name, omega in (("0-180", np.arange(0.0, 180.0, 1.0)), ("0-360", np.arange(0.0, 360.0, 2.0))):
+                            dty = G.dty_values_grain_in_beam(sx, sy, y0, omega)
+                            row = (dty - ymin) / ystep
+                            lo = np.floor(row).astype(int)
+                            w = row - lo
+                            ok = (lo >= 0) & (lo + 1 < ny)
+                            sino = np.zeros((ny, len(omega)), np.float32)
+                            k = np.arange(len(omega))
+                            sino[lo[ok], k[ok]] += 1 - w[ok]
+                            sino[lo[ok] + 1, k[ok]] += w[ok]
+                            case = {"kind": "outer", "sx": sx, "sy": sy, "ny": ny, "y0": y0, "ystep": ystep, "range": rng_name, "pad": int(pad), "shift": float(shift),
+                                    "fraction_of_projections_measured": float(ok.mean())}
+                            rec = R.run_iradon(sino, omega, pad=int(pad), shift=shift, workers=1)
+                            ri, rj = G.sample_to_recon(sx, sy, rec.shape, ystep)
+                            if not (0 <= ri < rec.shape[0] and 0 <= rj < rec.shape[1]):
+                                sh.violation("reconstruction-frame-does-not-contain-the-predicted-position", case, {"predicted": [float(ri), float(rj)], "recon_shape": list(rec.shape)})
+                                continue
+                            ci, cj = centroid_of_max(rec)
+                            err = float(np.hypot(ci - ri, cj - rj))
+                            if not np.isfinite(err) or err > 1.5:
+                                sh.violation("reconstruction-not-where-geometry-predicts", case, {"predicted": [float(ri), float(rj)], "found": [ci, cj], "error_px": err})
+                            sh.counters["max_outer_error_milli_px"] = max(sh.counters.get("max_outer_error_milli_px", 0), int(err * 1000))
+                            sh.evaluations += 1
+                            sh.nontrivial += 1
     sh.sample(case, limit=1)
     return sh
 
@@ -619,6 +665,8 @@ def _run_grainsino_build(desc):
 
 
 def run_shard(desc):
+    if desc[0] == "outer":
+        return _run_outer(desc)
     if desc[0] == "grainsino_build":
         return _run_grainsino_build(desc)
     return {"conv": _run_conv, "recon": _run_recon, "linear": _run_linear, "orders": _run_orders, "filters": _run_filters,
@@ -639,6 +687,9 @@ def replay(case):
         r = _run_orders(("orders",))
     elif kind == "filters":
         r = _run_filters(("filters", "thorough" if len(case["history"]) > 2 else "quick"))
+    elif kind == "outer":
+        r = _run_outer(("outer", "quick" if case["ystep"] == 1.0 else "thorough"))
+        r.violations = [v for v in r.violations if all(abs(v["case"][k] - case[k]) < 1e-9 for k in ("sx", "sy", "y0")) and v["case"]["ny"] == case["ny"] and v["case"]["range"] == case["range"]]
     elif kind == "grainsino_build":
         r = _run_grainsino_build(("grainsino_build", 0, 1, "quick" if case["ystep"] == 1.0 else "thorough"))
         r.violations = [v for v in r.violations if all(v["case"][k] == case[k] for k in ("sx", "sy", "ny", "y0", "omega_span"))]
